@@ -148,6 +148,12 @@ class SFixed(Template[_FixedTemplateArg], AssignableType):
     @classmethod
     @pyeval
     def _adjust_val(cls, val):
+        if isinstance(val, int):
+            # integer arithmetic, the float division below is not exact for large numbers
+            if cls._exp <= 0:
+                return val << -cls._exp
+            magnitude = abs(val) >> cls._exp
+            return magnitude if val >= 0 else -magnitude
         return int(val / 2**cls._exp)
 
     @classmethod
@@ -531,6 +537,12 @@ class UFixed(Template[_FixedTemplateArg], AssignableType):
     @classmethod
     @pyeval
     def _adjust_val(cls, val):
+        if isinstance(val, int):
+            # integer arithmetic, the float division below is not exact for large numbers
+            if cls._exp <= 0:
+                return val << -cls._exp
+            magnitude = abs(val) >> cls._exp
+            return magnitude if val >= 0 else -magnitude
         return int(val / 2**cls._exp)
 
     @classmethod
